@@ -87,6 +87,12 @@ CHECKS["C13"] = dict(
   technique="Lean 4 proof (invariants over an interleaving transition system + sequential refinement) + schedule-forced correspondence via build-tag verif yield points (go test -overlay, synctest)",
   design="§10 C13")
 
+CHECKS["C05"] = dict(
+  text="Lean theorems (unbounded: every wrapper stack plain/prefixed/bufio/sniffer, every payload, segmentation, arrival timing, stream ending and each of the 8 copy-path combinations): the destination receives exactly the buffered bytes followed by the rest of the stream, once, in order (relay_identity, upstream_receives_client_stream, client_receives_upstream_stream with exact delivery times); a taken prefix is never replayed; detection hands over every byte (detection_hands_over_every_byte), delays the relay by at most its window (5 s on port 53, twice the sniffing timeout on a sniffed port) and leaves no deadline armed; EOF is forwarded as a write shutdown at the moment it is read while the opposite direction keeps flowing up to the 10 s grace period, and a healthy connection is never cut (healthy_connection_not_cut). 'Every armed read deadline is cleared on every exit path' is closed by decide over a table REGENERATED from /repo by a go/ast path extractor. Tied to /repo by whole connections through the real handleConn (real DNS fast path, prefetch, ConnSniffer, relayCore) under synctest virtual time and by the real copy engine over loopback TCP (writev, splice).",
+  note="Trusted: Lean kernel + standard axioms; timing is virtual time only; partial writev/splice writes occur only as the kernel produces them; write failures not modelled; relayCore.run is exempt from the deadline table by name (its grace timer deliberately outlives it).",
+  technique="Lean 4 proof (stream identity over layered replay buffers + timed relay state machine) + regenerated deadline-path table (go/ast) + differential correspondence (go test -overlay, synctest, loopback TCP)",
+  design="§10 C05")
+
 def main():
     checks = []
     for pid in ALL:
